@@ -2,6 +2,7 @@
 matching rules, near-miss mutants, rule sets, synthetic rules with arbitrary field sizes."""
 import copy
 from core import mk, bits_of, L, R, Buffer, randbits, impl_outcome
+from core import mkmap, given_items
 from schc_util import (gen_rule, gen_rfd, prefix_free_ids, i2b, KINDS, fid_of, FID, COMPUTABLE, n_rule)
 from schc_run import parser_for
 from microschc.rfc8724 import (FieldDescriptor, PacketDescriptor, RuleFieldDescriptor, RuleDescriptor, MatchMapping,
@@ -61,7 +62,7 @@ def mutate_rule(rnd, rule, pd):
         return RuleDescriptor(id=rule.id, field_descriptors=fds), 'none'
     i = rnd.randrange(len(fds))
     f = fds[i]
-    kind = rnd.choice(['flipbit', 'lengthen', 'shorten', 'drop', 'dup', 'swap', 'dir', 'id', 'len', 'mapdel', 'longer-than-field'])
+    kind = rnd.choice(['flipbit', 'lengthen', 'shorten', 'drop', 'dup', 'swap', 'dir', 'id', 'len', 'mapdel', 'mapzeros', 'longer-than-field'])
     if kind == 'flipbit' and isinstance(f.target_value, Buffer) and f.target_value.length > 0:
         b = bits_of(f.target_value)
         j = rnd.randrange(len(b))
@@ -87,12 +88,22 @@ def mutate_rule(rnd, rule, pd):
         f.id = pd.fields[rnd.randrange(len(pd.fields))].id
     elif kind == 'len':
         f.length = rnd.choice([0, f.length + 1, max(0, f.length - 1), f.length + 8])
+    elif kind == 'mapzeros' and isinstance(f.target_value, MatchMapping):
+        # the key equal to the field value is replaced by keys that spell the same number with other lengths: the value is no longer mapped
+        fv = bits_of(pd.fields[min(i, len(pd.fields) - 1)].value)
+        fw = {}
+        for k_, v_ in given_items(f.target_value):
+            if bits_of(k_) == fv:
+                fw[mk('0' * 8 + fv, rnd.choice([L, R]))] = v_
+            else:
+                fw[k_] = v_
+        f.target_value = mkmap(fw)
     elif kind == 'mapdel' and isinstance(f.target_value, MatchMapping):
-        fw = dict(f.target_value.forward)
+        fw = dict(given_items(f.target_value))
         if fw:
             k = rnd.choice(list(fw))
             del fw[k]
-        f.target_value = MatchMapping(fw)
+        f.target_value = mkmap(fw)
     else:
         kind = 'none'
     return RuleDescriptor(id=rule.id, field_descriptors=fds), kind
@@ -154,13 +165,15 @@ def synth_case(rnd, nfields=None, sizes=None, mixed_index_width=True):
             while len(vs) < size and tries < 40:
                 tries += 1
                 w = randbits(rnd, rnd.choice([n, n, max(0, n - 1), n + 1]))
+                if tries < 3 and rnd.random() < 0.4:
+                    w = rnd.choice(['0' * 8 + v, '0' + v, v.lstrip('0')])      # the same number spelled with another length
                 if w not in vs:
                     vs.append(w)
             rnd.shuffle(vs)
             if len(vs) == 1 and rnd.random() < 0.3:
                 idxs = ['']    # a single-entry mapping may use the empty index
             fw = {mk(a, sd()): mk(b, sd()) for a, b in zip(vs, idxs)}
-            fd = RuleFieldDescriptor(fid, n, 0, DI.BIDIRECTIONAL, MatchMapping(fw), MO.MATCH_MAPPING, CDA.MAPPING_SENT)
+            fd = RuleFieldDescriptor(fid, n, 0, DI.BIDIRECTIONAL, mkmap(fw), MO.MATCH_MAPPING, CDA.MAPPING_SENT)
         fds.append(fd)
         vals.append(v)
     rid = randbits(rnd, rnd.randint(1, 16))
@@ -168,9 +181,33 @@ def synth_case(rnd, nfields=None, sizes=None, mixed_index_width=True):
 
 
 def synth_pdesc(rule, vals, payload_bits, direction=DI.UP):
-    fields = [FieldDescriptor(id=rf.id, value=mk(v), position=0) for rf, v in zip(rule.field_descriptors, vals)]
-    return PacketDescriptor(direction=direction, fields=fields, payload=mk(payload_bits))
+    # field values and payload padded on either side (chosen from the content, so that a case is reproducible): callers build
+    # packet descriptors by slicing, and slices of right-padded buffers are right-padded
+    # (not for MSB/LSB fields: least_significant_bits documents that it reads field values as left-padded, which is what the parsers
+    # produce for fields that are not byte aligned)
+    side = lambda v: (L if (len(v) + v.count('1')) % 3 else R)  # noqa: E731
+    fields = [FieldDescriptor(id=rf.id, value=mk(v, L if rf.compression_decompression_action == CDA.LSB else side(v)), position=0)
+              for rf, v in zip(rule.field_descriptors, vals)]
+    return PacketDescriptor(direction=direction, fields=fields, payload=mk(payload_bits, side(payload_bits + '1')))
 
 
 def payload_variants(rnd):
     return rnd.choice(['', randbits(rnd, rnd.randint(1, 7)), randbits(rnd, 8 * rnd.randint(1, 12)), randbits(rnd, rnd.randint(1, 90))])
+
+
+def gen_tunnel(rnd, k):
+    """IP-in-IP packet (outer and inner version by k, then random) carrying UDP + CoAP, parsed by a public PacketParser made of two
+    IP header parsers: returns (name, packet bytes, packet descriptor)"""
+    from microschc.parser.parser import PacketParser
+    from microschc.protocol.ipv6 import IPv6Parser
+    from microschc.protocol.ipv4 import IPv4Parser
+    from microschc.protocol.udp import UDPParser
+    from microschc.protocol.coap import CoAPParser
+    inner6, outer6 = [(True, True), (False, True), (True, False), (False, False)][k % 4] if k < 4 else (rnd.random() < 0.5, rnd.random() < 0.5)
+    src, dst = (rnd.randbytes(16), rnd.randbytes(16)) if inner6 else (rnd.randbytes(4), rnd.randbytes(4))
+    c_, _ = P.coap(rnd)
+    u_ = P.udp(rnd, c_, csum=(lambda x: P.udp_checksum_v6(src, dst, x)) if inner6 else (lambda x: P.udp_checksum_v4(src, dst, x)))
+    inner = P.ipv6(rnd, u_, 17, src, dst) if inner6 else P.ipv4(rnd, u_, 17, src, dst)
+    pkt = P.ipv6(rnd, inner, 41 if inner6 else 4) if outer6 else P.ipv4(rnd, inner, 41 if inner6 else 4)
+    pp = PacketParser('tunnel', [IPv6Parser() if outer6 else IPv4Parser(), IPv6Parser() if inner6 else IPv4Parser(), UDPParser(), CoAPParser()])
+    return 'tunnel:%s-in-%s' % ('6' if inner6 else '4', '6' if outer6 else '4'), pkt, pp.parse(Buffer(pkt, len(pkt) * 8))
